@@ -199,6 +199,14 @@ pub fn gen_instance(rng: &mut Rng, prefix: &str) -> Inst {
             "__log.push(\"rx:\" + /^[A-Z]+$/.test(\"abc\") + \"a.c abc\".replace(/a.c/, \"#\") + (\"xX\".match(/x/g) || []).length);",
         ][k]));
     }
+    if rng.chance(0.5) {
+        // the same console timer label in every instance, open across the whole program: the windows
+        // of interleaved instances overlap
+        let at = 3.min(case.tree.kids.len());
+        case.tree.kids.insert(at, Node::leaf("console.time(\"boot\"); console.count(\"boots\");"));
+        let n = case.tree.kids.len();
+        case.tree.kids.insert(n - 1, Node::leaf("console.timeEnd(\"boot\"); console.countReset(\"boots\");"));
+    }
     let followup = if rng.chance(0.45) {
         let mut fcfg = GenCfg::swarm(rng, 0);
         fcfg.size = 3 + rng.below(8);
